@@ -73,7 +73,7 @@ impl Conf {
             strf: self.strf,
             extra: self.extra.iter().map(|c| (b"AltCF".to_vec(), *c)).collect(),
             encrypt_metadata: self.encrypt_metadata,
-            p: Permissions::from_bits_truncate(self.perm_bits).p_value() as u32 as i32,
+            p: table22_p(self.perm_bits),
             user_pw: self.user_prepared.clone(),
             owner_pw: self.owner_prepared.clone(),
         }
@@ -102,6 +102,14 @@ fn pdfdoc_password(r: &mut Rng) -> String {
 fn prepare_r4(s: &str) -> Vec<u8> {
     // PDFDocEncoding image of ASCII / Latin-1 letters is the code point itself
     s.chars().map(|c| c as u32 as u8).collect()
+}
+
+/// the P word of ISO 32000-1 Table 22 for a set of granted permissions, computed without lopdf: the permission
+/// bits 3-6 and 9-12 as granted, bits 1-2 clear, bits 7-8 and 13-32 set, read as a signed 32-bit integer.
+/// (lopdf's Permissions flags sit at the Table 22 positions; only that correspondence is taken from lopdf.)
+pub fn table22_p(granted: u64) -> i32 {
+    const PERMISSION_BITS: u32 = 0b1111_0011_1100; // bits 3,4,5,6 and 9,10,11,12 (1-based)
+    (((granted as u32) & PERMISSION_BITS) | 0xFFFF_F0C0) as i32
 }
 
 fn perm_sets() -> [u64; 8] {
@@ -157,6 +165,12 @@ pub fn gen_conf(r: &mut Rng, index: u64) -> Conf {
 /// document with strings in every position, binary/empty strings and streams, a Metadata stream,
 /// compressed streams and per-stream Crypt overrides (V4+)
 pub fn gen_doc(r: &mut Rng, with_crypt_override: bool) -> RDoc {
+    gen_doc_with(r, with_crypt_override, false)
+}
+
+/// `stale_objstm`: the document also keeps an object stream that packs an outdated copy of one of its objects, as a
+/// document loaded from a file with object streams and edited afterwards does
+pub fn gen_doc_with(r: &mut Rng, with_crypt_override: bool, stale_objstm: bool) -> RDoc {
     let mut d = RDoc::new();
     let n = 2 + r.usize_below(8);
     let strv = |r: &mut Rng| -> RObj {
@@ -205,6 +219,15 @@ pub fn gen_doc(r: &mut Rng, with_crypt_override: bool) -> RDoc {
     d.objects.insert(mid, RObj::Stream(vec![(k("Type"), name("Metadata")), (k("Subtype"), name("XML")), (k("Note"), strv(r))], b"<x:xmpmeta>metadata that is at least sixteen bytes</x:xmpmeta>".to_vec()));
     if let Some(RObj::Dict(c)) = d.objects.get_mut(&(1, 0)) {
         c.push((k("Metadata"), RObj::Ref(20, 0)));
+    }
+    if stale_objstm {
+        let victims: Vec<(u32, u16)> = d.objects.iter().filter(|(id, o)| id.1 == 0 && !matches!(o, RObj::Stream(..))).map(|(id, _)| *id).collect();
+        if !victims.is_empty() {
+            let v = *r.pick(&victims);
+            let index = format!("{} 0 ", v.0);
+            let body = format!("{}(outdated copy kept in an object stream)", index);
+            d.objects.insert((26, 0), RObj::Stream(vec![(k("Type"), name("ObjStm")), (k("N"), RObj::Int(1)), (k("First"), RObj::Int(index.len() as i64))], body.into_bytes()));
+        }
     }
     d.trailer = vec![(k("Root"), RObj::Ref(1, 0)), (k("ID"), RObj::Array(vec![RObj::Str(r.bytes(16), true), RObj::Str(r.bytes(16), true)]))];
     let _ = gen::HOSTILE;
@@ -399,7 +422,13 @@ pub fn c05_case(conf: &Conf, model: &RDoc, r: &mut Rng) -> Option<(String, Strin
             if d.trailer.has(b"Encrypt") || d.is_encrypted() {
                 return Some(("encrypt-dict-left".into(), "the encryption dictionary is still present after decrypt".into()));
             }
-            if let Some(m) = diff_plain(model, &d) {
+            // object streams are file-structure containers: the writer leaves them out on purpose, so they are not
+            // expected back after save + load
+            let mut expected = model.clone();
+            if via_file {
+                expected.objects.retain(|_, o| !matches!(o, RObj::Stream(d, _) if RObj::dict_get(d, b"Type") == Some(&name("ObjStm"))));
+            }
+            if let Some(m) = diff_plain(&expected, &d) {
                 return Some((format!("plaintext/{}", who), format!("after decrypt with the {} password{}: {} [{}]", who, if via_file { " (save+load)" } else { "" }, m, conf.label())));
             }
         }
@@ -442,6 +471,10 @@ pub fn c06_lopdf_to_ref(conf: &Conf, model: &RDoc, r: &mut Rng) -> Option<(Strin
     cfg.owner_pw = conf.owner_prepared.clone();
     if !p_conforms(d.p, d.r) {
         return Some(("p-reserved-bits".into(), format!("P = {} ({:#x}) does not have its reserved bits set as ISO 32000 Table 22 requires", d.p, d.p as u32)));
+    }
+    // the permissions a conforming reader will enforce are the ones the caller granted, no more and no fewer
+    if d.p != table22_p(conf.perm_bits) {
+        return Some(("p-value".into(), format!("P = {} ({:#x}) written by lopdf, the granted permissions give {} ({:#x}) by Table 22", d.p, d.p as u32, table22_p(conf.perm_bits), table22_p(conf.perm_bits) as u32)));
     }
     let mut keys = vec![];
     for (who, pw) in [("user", &conf.user_prepared), ("owner", &conf.owner_prepared)] {
@@ -552,7 +585,7 @@ fn run_generic(cfg: &RunCfg, tag: &'static str, n_quick: u64, n_thorough: u64, f
             let gi = (i * cfg.threads + shard) as u64;
             let mut r = Rng::for_case(cfg.seed, tag, shard as u64, i as u64);
             let conf = gen_conf(&mut r, gi);
-            let model = gen_doc(&mut r, conf.kind >= 4);
+            let model = gen_doc_with(&mut r, conf.kind >= 4, tag == "C05" && gi % 4 == 1);
             out.evaluations += 1;
             out.count(&format!("config:V{}R{}/{}", conf.v(), conf.r(), conf.key_bits));
             if conf.kind >= 4 {
